@@ -111,8 +111,9 @@ func VH_C13_scan_full() {
 //verif:bounds as VH_C13_scan_full; key of 0..3 columns (NULL or any int64, any rowid, a third column no record has)
 func VH_C13_scan_min() {
 	e, in := vhIndexSetup()
-	if len(e.ents) > 5+3*verifTier() {
-		// keyed scans: trees of <= 5 entries (thorough: <= 8)
+	if len(e.ents) > 5 {
+		// keyed scans: trees of <= 5 entries in both tiers (the thorough tier adds
+		// leading NULL keys); larger trees cost hours of solver time
 		verifReach("end")
 		return
 	}
@@ -139,8 +140,9 @@ func VH_C13_scan_min() {
 //verif:bounds as VH_C13_scan_min
 func VH_C13_scan_eq() {
 	e, in := vhIndexSetup()
-	if len(e.ents) > 5+3*verifTier() {
-		// keyed scans: trees of <= 5 entries (thorough: <= 8)
+	if len(e.ents) > 5 {
+		// keyed scans: trees of <= 5 entries in both tiers (the thorough tier adds
+		// leading NULL keys); larger trees cost hours of solver time
 		verifReach("end")
 		return
 	}
@@ -164,11 +166,11 @@ func VH_C13_scan_eq() {
 }
 
 //verif:shards 8
-//verif:bounds as VH_C13_scan_min with two keys (lower, upper); trees of <= 5 entries (thorough: <= 7)
+//verif:bounds as VH_C13_scan_min with two keys (lower, upper); trees of <= 5 entries
 func VH_C13_scan_range() {
 	e, in := vhIndexSetup()
-	if len(e.ents) > 5+2*verifTier() {
-		// two free keys: trees of <= 5 entries (thorough: <= 7)
+	if len(e.ents) > 5 {
+		// two free keys: trees of <= 5 entries
 		verifReach("end")
 		return
 	}
